@@ -12,7 +12,7 @@ ID = "C16"
 LEVEL = "exploration"
 SHARDS = {"quick": 8, "thorough": 16}
 RULE = (
-    "histories: a C15 message stream (<= 30 messages over the small device/property/element universe) interleaved with callback "
+    "histories: a C15 message stream (<= 30 messages over the small device/property/element universe - in half of the cases renamed as a whole to names with brackets, blanks, `*` and `?`, which are ordinary characters in names -) interleaved with callback "
     "registrations and removals and with client writes (assign + submit: no event, mirror unchanged) at arbitrary stream "
     "positions; callbacks have every combination of device/vector/element filter "
     "(absent, matching, non-matching) and event type (any, value, state, definition), are plain or coroutine functions - given as a "
@@ -113,6 +113,7 @@ def check_events(case):
     cb: {"device","vector","element","etype","coro","raises","oneshot","reg_at","rm": None|{"at","by"}}"""
     from indi.client.client import BaseClient
 
+    case = streams.rename_case(case)
     loop = net.new_loop()
     try:
         class C(BaseClient):
@@ -341,6 +342,7 @@ callback_st = st.fixed_dictionaries(
 case_st = st.fixed_dictionaries({
     "items": streams.stream(30), "callbacks": st.lists(callback_st, min_size=2, max_size=6),
     "writes": st.lists(st.fixed_dictionaries({"at": st.integers(0, 40), "k": st.integers(0, 30), "submit": st.booleans()}), max_size=3),
+    "rename": st.sampled_from([0, 0, 1, 2]),
 })
 
 SUBCHECKS = {"events": check_events}
